@@ -29,7 +29,9 @@ TU = r'''
 #include "mp/flat/constr_std.h"
 #include "mp/flat/constr_keeper.h"
 #include "mp/flat/constr_eval.h"
+#include "mp/utils-math.h"
 namespace c07tu {
+double u7(double v, int d) { return mp::round_to_digits(v, d); }
 using VI = mp::VarInfoStatic;
 mp::Violation u1(const mp::LinConRange& c, const VI& x) { return c.ComputeViolation(x, false); }
 mp::Violation u3(const mp::AbsConstraint& c, const VI& x) { return c.ComputeViolation(x); }
@@ -162,6 +164,9 @@ class Sym:
             ck = e.get('castKind')
             src = ltype(qtype(strip(e['inner'][0])))
             if ck == 'IntegralToFloating':
+                ptypes = {(p[2] if len(p) > 2 else p[0]): p[1] for p in self.spec.get('params', [])}
+                if ptypes.get(t) == 'Int':
+                    return '(D.ofInt %s)' % t, env, L
                 return ('(D.ofBool %s)' % t if src == 'Bool' else '(D.ofNat %s)' % t), env, L
             if ck == 'IntegralToBoolean':
                 return '(%s != 0)' % t, env, L
@@ -199,6 +204,22 @@ class Sym:
                 return '(D.%s %s %s)' % (nm + "'", a, b), env, L1 + L2
             if nm in ('__builtin_inff', '__builtin_inf', '__builtin_huge_val', '__builtin_huge_valf'):
                 return 'D.pinf', env, []
+            if nm == 'pow' and len(args) == 2 and strip(args[0]).get('kind') == 'FloatingLiteral' and float(strip(args[0])['value']) == 10.0:
+                t, env, L = self.ev(args[1], env)
+                return '(D.pow10 %s)' % t, env, L
+            if nm == 'round' and len(args) == 1:
+                t, env, L = self.ev(args[0], env)
+                return '(D.round %s)' % t, env, L
+            if nm == 'ceil' and len(args) == 1:
+                # only the composition ceil(log10(fabs(v))) has a meaning here: the decimal exponent of |v|
+                a1 = strip(args[0])
+                n1 = strip(a1['inner'][0]).get('referencedDecl', {}).get('name') if a1.get('kind') == 'CallExpr' else None
+                a2 = strip(a1['inner'][1]) if n1 == 'log10' else None
+                n2 = strip(a2['inner'][0]).get('referencedDecl', {}).get('name') if a2 is not None and a2.get('kind') == 'CallExpr' else None
+                if n1 != 'log10' or n2 not in ('fabs', 'abs'):
+                    raise TranslateError('%s: ceil(..) is not applied to log10(fabs(..))' % self.spec['lean'])
+                t, env, L = self.ev(a2['inner'][1], env)
+                return '(D.ceilLog10Abs %s)' % t, env, L
             if nm in self.spec.get('calls', {}):
                 # call of another translated function: arguments translated in order
                 ts, L = [], []
@@ -759,6 +780,12 @@ def main(repo, out, work):
             raise TranslateError('ViolSummary::%s not found' % need)
     parts.append(count_viol(vs['CountViol']))
     parts.append(check_viol(vs['CheckViol']))
+    # ---- 6b. round_to_digits (utils-math.h), the helper behind sol:chk:prec
+    rd = find_fn(dump('round_to_digits'), 'round_to_digits', lambda n, p: 'double (double, int)' in qtype(n))
+    if not rd:
+        raise TranslateError('round_to_digits<double> instantiation not found')
+    parts.append(emit_def({'cxx': 'mp::round_to_digits<double> (utils-math.h)', 'lean': 'roundToDigits', 'ret': 'D',
+                           'params': [('value', 'D'), ('digits', 'Int')]}, rd[0]))
     # ---- 7. class selection in ComputeViolations
     fn, seq, idx = class_selection(D['ConstraintKeeper'])
     sym_spec = {'cxx': 'ConstraintKeeper<..>::ComputeViolations, lines `int c_class=0; ... if (c_class & chk.check_mode())` (constr_keeper.h)',
